@@ -140,6 +140,11 @@ def run(ctx):
     nontrivial, seen = 0, set()
     for r in range(nrs):
         rs = rulesets.gen_ruleset(ctx.rng, with_markov=ctx.rng.random() < 0.3, max_bases=4, max_len=3)
+        if r % 6 == 2:
+            # neighbouring lines of one list 1e-10 apart relatively, and a tail of tiny distinct probabilities: separate groups, each
+            # drawn with its own chance
+            rs = rulesets.gen_close_lines_ruleset(ctx.rng)
+            dist["close_lines_family"] = dist.get("close_lines_family", 0) + 1
         if r % 6 == 5:
             # k structures seen equally often (k = 7, 13, 14, 19: k copies of fl(1/k) sum to less than 1 - 2^-53)
             k = ctx.rng.choice([7, 13, 14, 19])
@@ -164,11 +169,26 @@ def run(ctx):
             # the Markov line somewhere behind other structures (a trained ruleset has it wherever its probability puts it)
             j = ctx.rng.randrange(1, len(rs["grammar"]))
             rs["grammar"][0], rs["grammar"][j] = rs["grammar"][j], rs["grammar"][0]
+        all_lower = ctx.rng.random() < 0.2
         try:
-            g = impl_next.load_grammar(rs, sc, skip_brute, ctx.rng.random() < 0.2)
+            g = impl_next.load_grammar(rs, sc, skip_brute, all_lower)
         except Exception:
             continue
         dist["rulesets"] += 1
+        # the groups a walk chooses among are the groups of the FILES (runs of exactly equal probability), each with the
+        # probability its lines carry: a value is drawn with the chance the ruleset gives it
+        for name_ in sorted(g.grammar):
+            if name_ == "M":
+                continue
+            fg = impl_next.file_groups(rs, name_, all_lower)
+            if fg is None:
+                continue
+            lg = [(grp["prob"], list(grp["values"])) for grp in g.grammar[name_]]
+            if lg != fg:
+                k_ = next((i for i, (a_, b_) in enumerate(zip(lg, fg)) if a_ != b_), min(len(lg), len(fg)))
+                vio.append({"sig": "C16:group-mass:file", "what": "%s: the walk draws among the groups %r..., the ruleset file defines %r..."
+                            % (name_, lg[k_:k_ + 2], fg[k_:k_ + 2]), "replay": {"ruleset": rs, "groups_file": True, "all_lower": all_lower, "draws": []}})
+                break
         if skip_brute:
             # --skip_brute: honeywords / walks draw from the structures of the FILE without the Markov line, each with its file
             # probability divided by what is left (the loader's own arithmetic, float for float), whatever the position of M
@@ -449,6 +469,13 @@ def replay(ctx, data):
     if "ruleset" not in inp or "draws" not in inp:
         return []
     sc = common.scratch()
+    if inp.get("groups_file"):
+        g = impl_next.load_grammar(inp["ruleset"], sc, False, bool(inp.get("all_lower")))
+        for name_ in sorted(g.grammar):
+            fg = impl_next.file_groups(inp["ruleset"], name_, bool(inp.get("all_lower"))) if name_ != "M" else None
+            if fg is not None and [(grp["prob"], list(grp["values"])) for grp in g.grammar[name_]] != fg:
+                return [{"sig": "C16:group-mass:file", "what": "%s: loaded groups differ from the groups of the file" % name_, "replay": inp}]
+        return []
     if inp.get("streak"):
         from lib_guesser.honeyword_session import HoneywordSession
         g = impl_next.load_grammar(inp["ruleset"], sc)
